@@ -2,6 +2,7 @@
 // double for the quaternion family).  Every function of interest is ODR-used once so that
 // clang instantiates its body; cxx2coq translates only the instantiated bodies.
 #include "rkcommon/math/AffineSpace.h"
+#include <sstream>
 using namespace rkcommon::math;
 
 typedef LinearSpace3<vec3f> L3;
@@ -64,6 +65,61 @@ float use_aff2(const A2 &a, const A2 &b, const vec2f &v, float r)
   A2 r2 = A2::rotate(v, r);
   return m.p.x + ra.p.x + s.p.x + t.p.x + r1.p.x + r2.p.x;
 }
+
+// ---- every remaining operator / constructor / conversion of the three headers (props/C06/opscan.py lists what is
+// declared; the check fails when a declaration is neither instantiated here nor on its commented exclusion list)
+float use_ops_lin(const L2 &a2, const L2 &b2, const L3 &a3, const L3 &b3)
+{
+  L2 z2(zero);
+  L3 z3(zero);
+  L2 c2 = a2; c2 *= b2;
+  L2 e2 = a2; e2 /= b2;
+  L3 c3 = a3; c3 *= b3;
+  L3 e3 = a3; e3 /= b3;
+  // the converting constructors between element types are instantiated in linconv.cpp (a second specialisation of
+  // the class templates in this TU would change every generated name)
+  return z2.vx.x + z3.vx.x + c2.vx.x + e2.vx.x + c3.vx.x + e3.vx.x + (a2 / b2).vx.x + (a3 / b3).vx.x + (+a2).vx.x + (+a3).vx.x +
+         (a2 == b2) + (a2 != b2) + (a3 == b3) + (a3 != b3) + clamp(a3).vx.x;
+}
+
+float use_ops_aff(const A3 &a, const A3 &b, const A2 &a2, const A2 &b2, const vec3f &v, float s)
+{
+  A3 z(zero), o(one);
+  A3 cols(v, v, v, v);
+  A3 c = a; c *= b;
+  A3 e = a; e /= b;
+  A3 as; as = a;                      // AffineSpaceT::operator=
+  A2 c2 = a2; c2 *= b2;
+  A3 t = a;
+  L3 *lp = t;                         // operator L*()
+  const L3 *clp = a;                  // operator const L*() const
+  return z.p.x + o.p.x + cols.p.x + c.p.x + e.p.x + as.p.x + c2.p.x + lp->vx.x + clp->vx.x + (s * a).p.x + (-a).p.x +
+         (+a).p.x + (a + b).p.x + (a - b).p.x + (a / b).p.x + (a == b) + (a != b);
+  // not instantiable (ill-formed bodies): operator/(AffineSpaceT, Scalar), operator*=(AffineSpaceT&, Scalar),
+  // operator/=(AffineSpaceT&, Scalar)  [AffineSpaceT * Scalar does not exist]; rotate(p, quaternion)
+}
+
+size_t use_ops_print(const A3 &a, const A2 &a2, const L3 &l3, const L2 &l2, const Qf &q)
+{
+  std::stringstream ss;
+  ss << a << a2 << l3 << l2 << q;
+  return ss.str().size();
+}
+
+template <typename T>
+T use_quat_ops(const QuaternionT<T> &a, const QuaternionT<T> &b, const vec_t<T, 3> &v, T s, float f)
+{
+  QuaternionT<T> fromScalar(s);
+  QuaternionT<T> z(zero), o(one);
+  QuaternionT<T> c = a;
+  c += s; c += b; c -= s; c -= b; c *= s; c *= b; c /= s; c /= b;
+  return fromScalar.r + z.r + o.r + c.r + (s + a).r + (a + s).r + (s - a).r + (a - s).r + (s / a).r + (a / s).r + (a / b).r + (+a).r +
+         (a == b) + (a != b) + xfmQuaternion(a, b).r + xfmNormal(a, v).x;
+}
+template float use_quat_ops<float>(const QuaternionT<float> &, const QuaternionT<float> &, const vec3f &, float, float);
+template double use_quat_ops<double>(const QuaternionT<double> &, const QuaternionT<double> &, const vec3d &, double, float);
+// mixed scalar types: only the combinations whose result type equals the quaternion's type are well-formed
+double use_quat_mixed(const QuaternionT<double> &a, float f) { return (a * f).r + (f * a).r; }
 
 template <typename T>
 T use_quat(const QuaternionT<T> &a, const QuaternionT<T> &b, const vec_t<T, 3> &v, const vec_t<T, 3> &u,
